@@ -40,7 +40,7 @@ LIB = [
 ]
 
 GROUND_LISTS = [lst([i(1), i(2), i(3)]), lst([a, b]), EMPTY, lst([i(2)]), lst([i(3), i(1), i(3)])]
-CONSTS = [i(1), i(2), i(3), a, b, flt(2.5)]
+CONSTS = [i(1), i(2), i(3), a, b, flt(2.5), flt(3.0), flt(0.1)]   # 3.0: integer/float equality in comparisons; 0.1: a float whose shortest decimal is not its exact expansion
 
 class Gen:
     def __init__(self, rng, allow_cut=True, allow_not=True, allow_print=True, allow_or=True, allow_lists=True):
@@ -157,7 +157,8 @@ def single_query_case(rules, qterms, nasks):
 
 # ---------- bounded-exhaustive small shapes: a($X) :- BODY.  a(9).  over a goal alphabet ----------
 def alphabet(allow_cut=True, allow_not=True, allow_print=True):
-    g = [C("n", X), C("e", X), U(X, i(2)), bip("greater_than", X, i(1)), FAIL, C("n", Y), U(Y, X), C("d", X), C("dn", Y)]
+    g = [C("n", X), C("e", X), U(X, i(2)), bip("greater_than", X, i(1)), FAIL, C("n", Y), U(Y, X), C("d", X), C("dn", Y),
+         bip("less_than_or_equal", X, flt(2.0))]      # an integer against an equal float, at the boundary
     if allow_cut: g.append(CUT)
     if allow_print: g.append(PRINT(atom("%s;"), X))
     if allow_not: g.append(NOT(C("e", X)))
